@@ -105,6 +105,9 @@ __CPROVER_assigns();
 /* equal years have equal ordinals (instantiated where two spellings of one year must be identified) */
 #define lemma_cong_REQ(A, B, m, d) ((Z)(A) == (Z)(B))
 #define lemma_cong_ENS(A, B, m, d) (ORD(A, m, d) == ORD(B, m, d) && (LEAP((Z)(A)) ? 1 : 0) == (LEAP((Z)(B)) ? 1 : 0))
+/* congruence in both year and month */
+#define lemma_cong2_REQ(A, B, ma, mb, d) ((Z)(A) == (Z)(B) && (ma) == (mb))
+#define lemma_cong2_ENS(A, B, ma, mb, d) (ORD(A, ma, d) == ORD(B, mb, d))
 /* an ordinal lies within its year, and years are ordered like their first days */
 #define lemma_ordyear_REQ(Y, m, d) (ZB(Y, 66) && 1 <= (m) && (m) <= 12 && 1 <= (d) && (d) <= 31)
 #define lemma_ordyear_ENS(Y, m, d) (ORDY(Y) <= ORD(Y, m, d) && ORD(Y, m, d) < ORDY((Z)(Y) + 1) && \
@@ -170,76 +173,126 @@ __CPROVER_assigns();
 #define lemma_I_day_REQ(e, m, d) (SMALL_E(e) && 1 <= (m) && (m) <= 12 && 1 <= (d) && (d) <= 400)
 #define lemma_I_day_ENS(e, m, d) (ORDI(e, m, d) == ORDI(e, m, 1) + (d) - 1)
 
-/* n_day: the result is the date whose day ordinal is NDAY_T = ORD(y,m,1) + d - 1 + cd.
- * The 128-bit statements are kept OPAQUE (uninterpreted predicates) in the contract and revealed only at
- * the points of a proof that need them, so that the other obligations do not carry 128-bit dividers. */
-__CPROVER_bool __CPROVER_uninterpreted_nday_pre(year_t y, int m, diff_t d, diff_t cd);
-__CPROVER_bool __CPROVER_uninterpreted_nday_post(year_t ry, int rm, int rd, year_t y, int m, diff_t d, diff_t cd);
-#define NDAY_PRE(y, m, d, cd) __CPROVER_uninterpreted_nday_pre(y, m, d, cd)
-#define NDAY_POST(ry, rm, rd, y, m, d, cd) __CPROVER_uninterpreted_nday_post(ry, rm, rd, y, m, d, cd)
+/* ---- opaque vocabulary for the carry chain -------------------------------------------------------
+ * The contracts of n_day .. n_sec, the constructors, step/difference and the operators are stated over
+ * OPAQUE symbols; a proof reveals a definition only at the terms where it needs it.  This keeps 128-bit
+ * division circuits out of every obligation that does not need them, and lets the solver identify the
+ * argument copies made at call sites by congruence instead of by re-deriving a divider's output. */
+Z __CPROVER_uninterpreted_dayord(year_t y, int m, int d);           /* == ORD(y,m,d) */
+int __CPROVER_uninterpreted_validd(year_t y, int m, int d);         /* == VALID_YMD(y,m,d) */
+Z __CPROVER_uninterpreted_monbase(year_t y, diff_t m);              /* == ORD(Y1,M1,1): first day of month m carried into the year */
+int __CPROVER_uninterpreted_nmon_pre(year_t y, diff_t m, diff_t d, Z cd); /* representability bound of the property */
+int __CPROVER_uninterpreted_nday_pre(year_t y, int m, diff_t d, diff_t cd);
+Z __CPROVER_uninterpreted_fd24(Z x);   /* floor(x/24) */
+Z __CPROVER_uninterpreted_fm24(Z x);   /* x mod 24 in 0..23 */
+Z __CPROVER_uninterpreted_fd60(Z x);
+Z __CPROVER_uninterpreted_fm60(Z x);
+#define FD24(x) __CPROVER_uninterpreted_fd24(x)
+#define FM24(x) __CPROVER_uninterpreted_fm24(x)
+#define FD60(x) __CPROVER_uninterpreted_fd60(x)
+#define FM60(x) __CPROVER_uninterpreted_fm60(x)
+#define REVEAL_DM24(x) __CPROVER_assume(FD24(x) == FD((Z)(x), 24) && FM24(x) == FM((Z)(x), 24))
+#define REVEAL_DM60(x) __CPROVER_assume(FD60(x) == FD((Z)(x), 60) && FM60(x) == FM((Z)(x), 60))
+/* facts about them (each an instance of a lemma proved with the definitions revealed) */
+#define lemma_dm_range_REQ(x) (ZB(x, 100))
+#define lemma_dm_range_ENS(x) (0 <= FM24(x) && FM24(x) < 24 && 0 <= FM60(x) && FM60(x) < 60 && (Z)(x) == 24 * FD24(x) + FM24(x) && (Z)(x) == 60 * FD60(x) + FM60(x))
+/* truncating split of one int64:  x/n + floor((x%n)/n) == floor(x/n)  and the remainders agree */
+#define lemma_split1_REQ(x) (1)
+#define lemma_split1_ENS(x) ((Z)((x) / 24) + FD24((Z)((x) % 24)) == FD24((Z)(x)) && FM24((Z)((x) % 24)) == FM24((Z)(x)) && \
+                             (Z)((x) / 60) + FD60((Z)((x) % 60)) == FD60((Z)(x)) && FM60((Z)((x) % 60)) == FM60((Z)(x)))
+/* truncating split of a sum of two int64 */
+#define lemma_split2_REQ(a, b) (1)
+#define lemma_split2_ENS(a, b) ((Z)((a) / 24 + (b) / 24) + FD24((Z)((a) % 24 + (b) % 24)) == FD24((Z)(a) + (Z)(b)) && FM24((Z)((a) % 24 + (b) % 24)) == FM24((Z)(a) + (Z)(b)) && \
+                                (Z)((a) / 60 + (b) / 60) + FD60((Z)((a) % 60 + (b) % 60)) == FD60((Z)(a) + (Z)(b)) && FM60((Z)((a) % 60 + (b) % 60)) == FM60((Z)(a) + (Z)(b)))
+/* the code's carry idiom: q = x / n; r = x % n; if (r < 0) { q -= 1; r += n; }  computes floor quotient and remainder */
+#define lemma_carry_REQ(x) (1)
+#define lemma_carry_ENS(x) ((((x) % 24 < 0) ? ((Z)((x) / 24) - 1 == FD24((Z)(x)) && (Z)((x) % 24 + 24) == FM24((Z)(x))) : ((Z)((x) / 24) == FD24((Z)(x)) && (Z)((x) % 24) == FM24((Z)(x)))) && \
+                            (((x) % 60 < 0) ? ((Z)((x) / 60) - 1 == FD60((Z)(x)) && (Z)((x) % 60 + 60) == FM60((Z)(x))) : ((Z)((x) / 60) == FD60((Z)(x)) && (Z)((x) % 60) == FM60((Z)(x)))))
+/* an already reduced value */
+#define lemma_dm_small_REQ(x) (1)
+#define lemma_dm_small_ENS(x) (((0 <= (x) && (x) < 24) ? (FD24((Z)(x)) == 0 && FM24((Z)(x)) == (x)) : 1) && ((0 <= (x) && (x) < 60) ? (FD60((Z)(x)) == 0 && FM60((Z)(x)) == (x)) : 1))
+#define DAYORD(y, m, d) __CPROVER_uninterpreted_dayord(y, m, d)
+#define VALIDD(y, m, d) (__CPROVER_uninterpreted_validd(y, m, d) != 0)
+#define MONBASE(y, m) __CPROVER_uninterpreted_monbase(y, m)
+#define NMON_PRE(y, m, d, cd) (__CPROVER_uninterpreted_nmon_pre(y, m, d, cd) != 0)
+#define NDAY_PRE(y, m, d, cd) (__CPROVER_uninterpreted_nday_pre(y, m, d, cd) != 0)
 /* definitions */
-#define NDAY_PRE_DEF(y, m, d, cd) (ORD_MIN <= NDAY_T(y, m, d, cd) && NDAY_T(y, m, d, cd) <= ORD_MAX)
-#define NDAY_POST_DEF(ry, rm, rd, y, m, d, cd) (VALID_YMD(ry, rm, rd) && ORD(ry, rm, rd) == NDAY_T(y, m, d, cd))
-/* reveal a definition at one argument tuple (an instance of the defining axiom) */
-#define REVEAL_NDAY_PRE(y, m, d, cd) __CPROVER_assume(NDAY_PRE(y, m, d, cd) == (NDAY_PRE_DEF(y, m, d, cd) ? 1 : 0))
-#define REVEAL_NDAY_POST(ry, rm, rd, y, m, d, cd) __CPROVER_assume(NDAY_POST(ry, rm, rd, y, m, d, cd) == (NDAY_POST_DEF(ry, rm, rd, y, m, d, cd) ? 1 : 0))
-
-fields n_day(year_t y, month_t m, diff_t d, diff_t cd, hour_t hh, minute_t mm, second_t ss)
-__CPROVER_requires(1 <= m && m <= 12)
-__CPROVER_requires(NDAY_PRE(y, m, d, cd))
-__CPROVER_ensures(__CPROVER_return_value.hh == hh && __CPROVER_return_value.mm == mm && __CPROVER_return_value.ss == ss)
-__CPROVER_ensures(1 <= __CPROVER_return_value.m && __CPROVER_return_value.m <= 12 && 1 <= __CPROVER_return_value.d && __CPROVER_return_value.d <= 31)
-__CPROVER_ensures(NDAY_POST_DEF(__CPROVER_return_value.y, __CPROVER_return_value.m, __CPROVER_return_value.d, y, m, d, cd))
-__CPROVER_ensures((cd == 0 && 1 <= d && d <= 28) ? (__CPROVER_return_value.y == y && __CPROVER_return_value.m == m && __CPROVER_return_value.d == d) : 1)
-__CPROVER_assigns();
-
-/* ---- the carry chain above n_day (C04) -------------------------------------------------------
- * NMON_*: month m (any int64) is first carried into the year: year Y1 = y + floor((m-1)/12),
- * month M1 = (m-1) mod 12 + 1; then days are counted from the first of that month. */
 #define NMON_Y1(y, m) ((Z)(y) + FD((Z)(m) - 1, 12))
 #define NMON_M1(m) ((int)FM((Z)(m) - 1, 12) + 1)
 #define NMON_T(y, m, d, cd) (ORD(NMON_Y1(y, m), NMON_M1(m), 1) + (Z)(d) - 1 + (Z)(cd))
+#define NDAY_PRE_DEF(y, m, d, cd) (ORD_MIN <= NDAY_T(y, m, d, cd) && NDAY_T(y, m, d, cd) <= ORD_MAX)
+#define NMON_PRE_DEF(y, m, d, cd) (FITS64(NMON_Y1(y, m)) && ORD_MIN <= NMON_T(y, m, d, cd) && NMON_T(y, m, d, cd) <= ORD_MAX)
+/* reveal a definition at one argument tuple (an instance of the defining axiom) */
+#define REVEAL_DAYORD(y, m, d) __CPROVER_assume(DAYORD(y, m, d) == ORD(y, m, d))
+#define REVEAL_VALIDD(y, m, d) __CPROVER_assume(VALIDD(y, m, d) == (VALID_YMD(y, m, d) ? 1 : 0))
+#define REVEAL_MONBASE(y, m) __CPROVER_assume(MONBASE(y, m) == ORD(NMON_Y1(y, m), NMON_M1(m), 1))
+#define REVEAL_NDAY_PRE(y, m, d, cd) __CPROVER_assume(NDAY_PRE(y, m, d, cd) == (NDAY_PRE_DEF(y, m, d, cd) ? 1 : 0))
+#define REVEAL_NMON_PRE(y, m, d, cd) __CPROVER_assume(NMON_PRE(y, m, d, cd) == (NMON_PRE_DEF(y, m, d, cd) ? 1 : 0))
 #define RV __CPROVER_return_value
+#define RVDAY DAYORD(RV.y, RV.m, RV.d)
+#define RVVALID (1 <= RV.m && RV.m <= 12 && 1 <= RV.d && RV.d <= 31 && VALIDD(RV.y, RV.m, RV.d))
 
-fields n_mon(year_t y, diff_t m, diff_t d, diff_t cd, hour_t hh, minute_t mm, second_t ss)
-__CPROVER_requires(FITS64(NMON_Y1(y, m)))
-__CPROVER_requires(ORD_MIN <= NMON_T(y, m, d, cd) && NMON_T(y, m, d, cd) <= ORD_MAX)
+/* day ordinals of 64-bit years are far inside the 128-bit range (so inequalities between them do not wrap) */
+#define lemma_ordbound_REQ(y, m, d) (1)
+#define lemma_ordbound_ENS(y, m, d) (ZB(ORD(y, m, d), 80))
+#define BOUND_DAYORD(y, m, d) __CPROVER_assume(ZB(DAYORD(y, m, d), 80))   /* instance of lemma_ordbound under DAYORD's definition */
+
+/* a day 1..28 of a month 1..12 is a valid date, counted from that month's base */
+#define lemma_valid28_REQ(y, m, d) (1 <= (m) && (m) <= 12 && 1 <= (d) && (d) <= 28)
+#define lemma_valid28_ENS(y, m, d) (VALIDD(y, m, d) && DAYORD(y, m, d) == MONBASE(y, (diff_t)(m)) + (Z)(d) - 1)
+
+/* n_day: the result is the valid date whose day ordinal is ORD(y,m,1) + d - 1 + cd */
+fields n_day(year_t y, month_t m, diff_t d, diff_t cd, hour_t hh, minute_t mm, second_t ss)
+__CPROVER_requires(1 <= m && m <= 12)
+__CPROVER_requires(NDAY_PRE(y, m, d, cd))
 __CPROVER_ensures(RV.hh == hh && RV.mm == mm && RV.ss == ss)
-__CPROVER_ensures(VALID_YMD(RV.y, RV.m, RV.d))
-__CPROVER_ensures(ORD(RV.y, RV.m, RV.d) == NMON_T(y, m, d, cd))
+__CPROVER_ensures(RVVALID)
+__CPROVER_ensures(RVDAY == DAYORD(y, m, 1) + (Z)d - 1 + (Z)cd)
+__CPROVER_ensures((cd == 0 && 1 <= d && d <= 28) ? (RV.y == y && RV.m == m && RV.d == d) : 1)
+__CPROVER_assigns();
+
+/* ---- the carry chain above n_day (C04): month m (any int64) is first carried into the year, then days are
+ * counted from the first of that month: result day ordinal = MONBASE(y,m) + d - 1 + (carried days) */
+fields n_mon(year_t y, diff_t m, diff_t d, diff_t cd, hour_t hh, minute_t mm, second_t ss)
+__CPROVER_requires(NMON_PRE(y, m, d, (Z)cd))
+__CPROVER_ensures(RV.hh == hh && RV.mm == mm && RV.ss == ss)
+__CPROVER_ensures(RVVALID)
+__CPROVER_ensures(RVDAY == MONBASE(y, m) + (Z)d - 1 + (Z)cd)
+__CPROVER_ensures((1 <= m && m <= 12 && cd == 0 && 1 <= d && d <= 28) ? (RV.y == y && RV.m == m && RV.d == d) : 1)
 __CPROVER_assigns();
 
 #define CARRYB ((diff_t)1 << 61)
 fields n_hour(year_t y, diff_t m, diff_t d, diff_t cd, diff_t hh, minute_t mm, second_t ss)
 __CPROVER_requires(-CARRYB <= cd && cd <= CARRYB)
-__CPROVER_requires(FITS64(NMON_Y1(y, m)))
-__CPROVER_requires(ORD_MIN <= NMON_T(y, m, d, (Z)cd + FD((Z)hh, 24)) && NMON_T(y, m, d, (Z)cd + FD((Z)hh, 24)) <= ORD_MAX)
-__CPROVER_ensures(RV.hh == FM((Z)hh, 24) && RV.mm == mm && RV.ss == ss)
-__CPROVER_ensures(VALID_YMD(RV.y, RV.m, RV.d))
-__CPROVER_ensures(ORD(RV.y, RV.m, RV.d) == NMON_T(y, m, d, (Z)cd + FD((Z)hh, 24)))
+__CPROVER_requires(NMON_PRE(y, m, d, (Z)cd + FD24((Z)hh)))
+__CPROVER_ensures(RV.hh == FM24((Z)hh) && RV.mm == mm && RV.ss == ss)
+__CPROVER_ensures(RVVALID)
+__CPROVER_ensures(RVDAY == MONBASE(y, m) + (Z)d - 1 + (Z)cd + FD24((Z)hh))
+__CPROVER_ensures((1 <= m && m <= 12 && cd == 0 && 1 <= d && d <= 28 && 0 <= hh && hh < 24) ? (RV.y == y && RV.m == m && RV.d == d) : 1)
 __CPROVER_assigns();
 
 /* total hours carried into the day count by n_min: hh + ch + floor(mm/60) */
-#define NMIN_H(hh, ch, mm) ((Z)(hh) + (Z)(ch) + FD((Z)(mm), 60))
+#define NMIN_H(hh, ch, mm) ((Z)(hh) + (Z)(ch) + FD60((Z)(mm)))
 fields n_min(year_t y, diff_t m, diff_t d, diff_t hh, diff_t ch, diff_t mm, second_t ss)
 __CPROVER_requires(-CARRYB <= ch && ch <= CARRYB)
-__CPROVER_requires(FITS64(NMON_Y1(y, m)))
-__CPROVER_requires(ORD_MIN <= NMON_T(y, m, d, FD(NMIN_H(hh, ch, mm), 24)) && NMON_T(y, m, d, FD(NMIN_H(hh, ch, mm), 24)) <= ORD_MAX)
-__CPROVER_ensures(RV.hh == FM(NMIN_H(hh, ch, mm), 24) && RV.mm == FM((Z)mm, 60) && RV.ss == ss)
-__CPROVER_ensures(VALID_YMD(RV.y, RV.m, RV.d))
-__CPROVER_ensures(ORD(RV.y, RV.m, RV.d) == NMON_T(y, m, d, FD(NMIN_H(hh, ch, mm), 24)))
+__CPROVER_requires(NMON_PRE(y, m, d, FD24(NMIN_H(hh, ch, mm))))
+__CPROVER_ensures(RV.hh == FM24(NMIN_H(hh, ch, mm)) && RV.mm == FM60((Z)mm) && RV.ss == ss)
+__CPROVER_ensures(RVVALID)
+__CPROVER_ensures(RVDAY == MONBASE(y, m) + (Z)d - 1 + FD24(NMIN_H(hh, ch, mm)))
+__CPROVER_ensures((1 <= m && m <= 12 && ch == 0 && 1 <= d && d <= 28 && 0 <= hh && hh < 24 && 0 <= mm && mm < 60) ? (RV.y == y && RV.m == m && RV.d == d) : 1)
 __CPROVER_assigns();
 
 /* n_sec: the whole carry chain.  Total minutes M = mm + floor(ss/60), total hours H = hh + floor(M/60) */
-#define NSEC_M(mm, ss) ((Z)(mm) + FD((Z)(ss), 60))
-#define NSEC_H(hh, mm, ss) ((Z)(hh) + FD(NSEC_M(mm, ss), 60))
-#define NSEC_T(y, m, d, hh, mm, ss) NMON_T(y, m, d, FD(NSEC_H(hh, mm, ss), 24))
+#define NSEC_M(mm, ss) ((Z)(mm) + FD60((Z)(ss)))
+#define NSEC_H(hh, mm, ss) ((Z)(hh) + FD60(NSEC_M(mm, ss)))
+#define NSEC_CD(hh, mm, ss) FD24(NSEC_H(hh, mm, ss))
+#define NSEC_ALREADY(m, d, hh, mm, ss) (1 <= (m) && (m) <= 12 && 1 <= (d) && (d) <= 28 && 0 <= (hh) && (hh) < 24 && 0 <= (mm) && (mm) < 60 && 0 <= (ss) && (ss) < 60)
 fields n_sec(year_t y, diff_t m, diff_t d, diff_t hh, diff_t mm, diff_t ss)
-__CPROVER_requires(FITS64(NMON_Y1(y, m)))
-__CPROVER_requires(ORD_MIN <= NSEC_T(y, m, d, hh, mm, ss) && NSEC_T(y, m, d, hh, mm, ss) <= ORD_MAX)
-__CPROVER_ensures(RV.ss == FM((Z)ss, 60) && RV.mm == FM(NSEC_M(mm, ss), 60) && RV.hh == FM(NSEC_H(hh, mm, ss), 24))
-__CPROVER_ensures(VALID_YMD(RV.y, RV.m, RV.d))
-__CPROVER_ensures(ORD(RV.y, RV.m, RV.d) == NSEC_T(y, m, d, hh, mm, ss))
+__CPROVER_requires(NMON_PRE(y, m, d, NSEC_CD(hh, mm, ss)))
+__CPROVER_ensures(RV.ss == FM60((Z)ss) && RV.mm == FM60(NSEC_M(mm, ss)) && RV.hh == FM24(NSEC_H(hh, mm, ss)))
+__CPROVER_ensures(RVVALID)
+__CPROVER_ensures(RVDAY == MONBASE(y, m) + (Z)d - 1 + NSEC_CD(hh, mm, ss))
+__CPROVER_ensures(NSEC_ALREADY(m, d, hh, mm, ss) ? (RV.y == y && RV.m == m && RV.d == d) : 1)
 __CPROVER_assigns();
 
 /* alignment: fields below the unit are reset to their minimum, fields above are untouched */
@@ -247,8 +300,16 @@ fields align_second(fields f) __CPROVER_ensures(FIELDS_EQ(RV, f)) __CPROVER_assi
 fields align_minute(fields f) __CPROVER_ensures(RV.y == f.y && RV.m == f.m && RV.d == f.d && RV.hh == f.hh && RV.mm == f.mm && RV.ss == 0) __CPROVER_assigns();
 fields align_hour(fields f) __CPROVER_ensures(RV.y == f.y && RV.m == f.m && RV.d == f.d && RV.hh == f.hh && RV.mm == 0 && RV.ss == 0) __CPROVER_assigns();
 fields align_day(fields f) __CPROVER_ensures(RV.y == f.y && RV.m == f.m && RV.d == f.d && RV.hh == 0 && RV.mm == 0 && RV.ss == 0) __CPROVER_assigns();
-fields align_month(fields f) __CPROVER_ensures(RV.y == f.y && RV.m == f.m && RV.d == 1 && RV.hh == 0 && RV.mm == 0 && RV.ss == 0) __CPROVER_assigns();
-fields align_year(fields f) __CPROVER_ensures(RV.y == f.y && RV.m == 1 && RV.d == 1 && RV.hh == 0 && RV.mm == 0 && RV.ss == 0) __CPROVER_assigns();
+fields align_month(fields f)
+__CPROVER_requires(1 <= f.m && f.m <= 12 && 1 <= f.d && f.d <= 31 && VALIDD(f.y, f.m, f.d))
+__CPROVER_ensures(RV.y == f.y && RV.m == f.m && RV.d == 1 && RV.hh == 0 && RV.mm == 0 && RV.ss == 0)
+__CPROVER_ensures(DAYORD(RV.y, RV.m, 1) + f.d - 1 == DAYORD(f.y, f.m, f.d) && f.d <= DIM(LEAP(RV.y), RV.m) && VALIDD(RV.y, RV.m, 1) && ZB(DAYORD(RV.y, RV.m, 1), 80))
+__CPROVER_assigns();
+fields align_year(fields f)
+__CPROVER_requires(1 <= f.m && f.m <= 12 && 1 <= f.d && f.d <= 31 && VALIDD(f.y, f.m, f.d))
+__CPROVER_ensures(RV.y == f.y && RV.m == 1 && RV.d == 1 && RV.hh == 0 && RV.mm == 0 && RV.ss == 0)
+__CPROVER_ensures(DAYORD(RV.y, 1, 1) <= DAYORD(f.y, f.m, f.d) && DAYORD(f.y, f.m, f.d) - DAYORD(RV.y, 1, 1) + 1 <= 365 + (LEAP(RV.y) ? 1 : 0) && VALIDD(RV.y, 1, 1) && ZB(DAYORD(RV.y, 1, 1), 80) && ZB(DAYORD(f.y, f.m, f.d), 80))
+__CPROVER_assigns();
 
 /* ---- alignment predicates and unit ordinals (C04, C05) ---- */
 #define ALIGNED_second(f) (1)
@@ -271,39 +332,47 @@ fields align_year(fields f) __CPROVER_ensures(RV.y == f.y && RV.m == 1 && RV.d =
 #define REPR_month(u) (FITS64(FD((u), 12)))
 #define REPR_year(u) (FITS64(u))
 
-/* construction from six fields (C04): normalise, then truncate to the alignment */
-#define CTOR_COMMON(y, m, d, hh, mm, ss) \
-  __CPROVER_requires(FITS64(NMON_Y1(y, m))) \
-  __CPROVER_requires(ORD_MIN <= NSEC_T(y, m, d, hh, mm, ss) && NSEC_T(y, m, d, hh, mm, ss) <= ORD_MAX)
+/* construction from six fields (C04): normalise, then truncate to the alignment.
+ * CT_DAY is the day ordinal the normalised value has: MONBASE(y,m) + d - 1 + (days carried out of hh:mm:ss) */
+#define CT_DAY(y, m, d, hh, mm, ss) (MONBASE(y, m) + (Z)(d) - 1 + NSEC_CD(hh, mm, ss))
+#define CTOR_REQ(y, m, d, hh, mm, ss) __CPROVER_requires(NMON_PRE(y, m, d, NSEC_CD(hh, mm, ss)))
 fields ct_second_ctor6(year_t y, diff_t m, diff_t d, diff_t hh, diff_t mm, diff_t ss)
-CTOR_COMMON(y, m, d, hh, mm, ss)
-__CPROVER_ensures(VALID_F(RV) && ORD(RV.y, RV.m, RV.d) == NSEC_T(y, m, d, hh, mm, ss))
-__CPROVER_ensures(RV.hh == FM(NSEC_H(hh, mm, ss), 24) && RV.mm == FM(NSEC_M(mm, ss), 60) && RV.ss == FM((Z)ss, 60))
+CTOR_REQ(y, m, d, hh, mm, ss)
+__CPROVER_ensures(RVVALID && RVDAY == CT_DAY(y, m, d, hh, mm, ss))
+__CPROVER_ensures(RV.hh == FM24(NSEC_H(hh, mm, ss)) && RV.mm == FM60(NSEC_M(mm, ss)) && RV.ss == FM60((Z)ss))
+__CPROVER_ensures(NSEC_ALREADY(m, d, hh, mm, ss) ? (RV.y == y && RV.m == m && RV.d == d) : 1)
 __CPROVER_assigns();
 fields ct_minute_ctor6(year_t y, diff_t m, diff_t d, diff_t hh, diff_t mm, diff_t ss)
-CTOR_COMMON(y, m, d, hh, mm, ss)
-__CPROVER_ensures(VALID_F(RV) && ORD(RV.y, RV.m, RV.d) == NSEC_T(y, m, d, hh, mm, ss))
-__CPROVER_ensures(RV.hh == FM(NSEC_H(hh, mm, ss), 24) && RV.mm == FM(NSEC_M(mm, ss), 60) && RV.ss == 0)
+CTOR_REQ(y, m, d, hh, mm, ss)
+__CPROVER_ensures(RVVALID && RVDAY == CT_DAY(y, m, d, hh, mm, ss))
+__CPROVER_ensures(RV.hh == FM24(NSEC_H(hh, mm, ss)) && RV.mm == FM60(NSEC_M(mm, ss)) && RV.ss == 0)
+__CPROVER_ensures(NSEC_ALREADY(m, d, hh, mm, ss) ? (RV.y == y && RV.m == m && RV.d == d) : 1)
 __CPROVER_assigns();
 fields ct_hour_ctor6(year_t y, diff_t m, diff_t d, diff_t hh, diff_t mm, diff_t ss)
-CTOR_COMMON(y, m, d, hh, mm, ss)
-__CPROVER_ensures(VALID_F(RV) && ORD(RV.y, RV.m, RV.d) == NSEC_T(y, m, d, hh, mm, ss))
-__CPROVER_ensures(RV.hh == FM(NSEC_H(hh, mm, ss), 24) && RV.mm == 0 && RV.ss == 0)
+CTOR_REQ(y, m, d, hh, mm, ss)
+__CPROVER_ensures(RVVALID && RVDAY == CT_DAY(y, m, d, hh, mm, ss))
+__CPROVER_ensures(RV.hh == FM24(NSEC_H(hh, mm, ss)) && RV.mm == 0 && RV.ss == 0)
+__CPROVER_ensures(NSEC_ALREADY(m, d, hh, mm, ss) ? (RV.y == y && RV.m == m && RV.d == d) : 1)
 __CPROVER_assigns();
 fields ct_day_ctor6(year_t y, diff_t m, diff_t d, diff_t hh, diff_t mm, diff_t ss)
-CTOR_COMMON(y, m, d, hh, mm, ss)
-__CPROVER_ensures(VALID_F(RV) && ORD(RV.y, RV.m, RV.d) == NSEC_T(y, m, d, hh, mm, ss))
+CTOR_REQ(y, m, d, hh, mm, ss)
+__CPROVER_ensures(RVVALID && RVDAY == CT_DAY(y, m, d, hh, mm, ss))
 __CPROVER_ensures(RV.hh == 0 && RV.mm == 0 && RV.ss == 0)
+__CPROVER_ensures(NSEC_ALREADY(m, d, hh, mm, ss) ? (RV.y == y && RV.m == m && RV.d == d) : 1)
 __CPROVER_assigns();
+/* month / year alignment: the day (and month) are reset; the result is the first day of the month (year) that contains
+ * the normalised date, i.e. its day ordinal is the largest first-of-month (first-of-year) ordinal not above CT_DAY */
 fields ct_month_ctor6(year_t y, diff_t m, diff_t d, diff_t hh, diff_t mm, diff_t ss)
-CTOR_COMMON(y, m, d, hh, mm, ss)
-__CPROVER_ensures(VALID_F(RV) && ALIGNED_month(RV))
-__CPROVER_ensures(ORD(RV.y, RV.m, 1) <= NSEC_T(y, m, d, hh, mm, ss) && NSEC_T(y, m, d, hh, mm, ss) <= ORD(RV.y, RV.m, DIM(LEAP(RV.y), RV.m)))
+CTOR_REQ(y, m, d, hh, mm, ss)
+__CPROVER_ensures(1 <= RV.m && RV.m <= 12 && RV.d == 1 && RV.hh == 0 && RV.mm == 0 && RV.ss == 0)
+__CPROVER_ensures(VALIDD(RV.y, RV.m, 1) && DAYORD(RV.y, RV.m, 1) <= CT_DAY(y, m, d, hh, mm, ss) && CT_DAY(y, m, d, hh, mm, ss) - DAYORD(RV.y, RV.m, 1) + 1 <= DIM(LEAP(RV.y), RV.m))
+__CPROVER_ensures(NSEC_ALREADY(m, d, hh, mm, ss) ? (RV.y == y && RV.m == m) : 1)
 __CPROVER_assigns();
 fields ct_year_ctor6(year_t y, diff_t m, diff_t d, diff_t hh, diff_t mm, diff_t ss)
-CTOR_COMMON(y, m, d, hh, mm, ss)
-__CPROVER_ensures(VALID_F(RV) && ALIGNED_year(RV))
-__CPROVER_ensures(ORD(RV.y, 1, 1) <= NSEC_T(y, m, d, hh, mm, ss) && NSEC_T(y, m, d, hh, mm, ss) <= ORD(RV.y, 12, 31))
+CTOR_REQ(y, m, d, hh, mm, ss)
+__CPROVER_ensures(RV.m == 1 && RV.d == 1 && RV.hh == 0 && RV.mm == 0 && RV.ss == 0)
+__CPROVER_ensures(VALIDD(RV.y, 1, 1) && DAYORD(RV.y, 1, 1) <= CT_DAY(y, m, d, hh, mm, ss) && CT_DAY(y, m, d, hh, mm, ss) - DAYORD(RV.y, 1, 1) + 1 <= 365 + (LEAP(RV.y) ? 1 : 0))
+__CPROVER_ensures(NSEC_ALREADY(m, d, hh, mm, ss) ? (RV.y == y) : 1)
 __CPROVER_assigns();
 
 /* ---- C05: step, difference, operators ---- */
